@@ -22,7 +22,7 @@ class Edge:
     def __init__(self, src, dst, ctrl=None, select=None, guard=None, sync=None, assign=None, prob=None, order=0):
         self.src, self.dst, self.ctrl = src, dst, ctrl       # ("L", i) / ("B", j)
         self.select, self.guard, self.sync, self.assign, self.prob, self.order = select, guard, sync, assign, prob, order
-        self.guardstyle = 0  # 1: modulo operators in the guard text
+        self.guardstyle = 0  # 1: modulo operators in the guard text; 2/3: the trivially true guards `true` and `1`
         self.selstyle = 0    # 0: `s : int[0,K]`   1: two binders   2: the binder shadows the global g2   3: ... the global clock gx
 
 
@@ -71,6 +71,10 @@ def params_text(ps):
 
 # ---- label texts and the trees they must become -----------------------------------------------------
 def t_guard(k, style=0):
+    if style == 2:    # trivially true guards, spelled out
+        return "true", "(CONSTANT:BOOL 1)"
+    if style == 3:
+        return "1", "(CONSTANT:INT 1)"
     if style == 1:    # modulo with operands whose names start like printf conversions: hazardous for anything that formats label text
         return ("g1 % ga == {0} && g2 % gc != 1".format(k % 7),
                 "(AND (EQ (MOD (IDENTIFIER g1) (IDENTIFIER ga)) (CONSTANT:INT %d)) (NEQ (MOD (IDENTIFIER g2) (IDENTIFIER gc)) (CONSTANT:INT 1)))" % (k % 7))
@@ -511,7 +515,7 @@ def build(choose, common=False, bp_base=True):
                     e.selstyle = choose(4, tag + ".selstyle")
                 if on[1]:
                     e.guard = k + 101
-                    e.guardstyle = choose(2, tag + ".guardstyle")
+                    e.guardstyle = choose(4, tag + ".guardstyle")
                 if on[2]:
                     e.sync = ["c!", "c?", "bc!"][choose(3, tag + ".chan")]
                 if on[3]:
